@@ -4,6 +4,8 @@ import json, sys
 props = [json.loads(l) for l in open('/verif/properties.jsonl')]
 TRUST = "go/ssa lowering; the gosym engine's instruction semantics (every cover-point model and every counterexample is replayed through the natively compiled harness); solvers z3 5.1.0 / z3 4.8.12 / cvc5 1.0 (portfolio, any error or unknown is inconclusive); the harness oracles in /verif/harness"
 CHECKS = {
+ "C16": dict(text="Bounded model checking of reuse: generated Lexer.Reset (any earlier state, and real histories of Scan calls) and generated Parser.Parse on a used parser object are compared, token by token / action call by action call, with fresh objects on the same input; abstract tables cover all automata up to the state bound, corpus tables confirm counterexamples.", ref="7 C16", tech="self-composition (2-safety) harness executed symbolically over abstract tables, QF_BV, decided by z3/cvc5"),
+ "C17": dict(text="Non-interference by solver: every store executed by the generated entry points on abstract tables and symbolic input must target an object allocated by the caller's own calls; 'path condition AND target pre-exists' is unsat for every store, so the generated code performs no write to shared state and results per goroutine are the sequential ones.", ref="7 C17", tech="store-target obligations from symbolic execution of the generated Go over abstract tables (QF_BV), decided by z3/cvc5"),
  "C18": dict(text="Bounded model checking of the real DisjunctRangeSet.AddRange/insertRange/AddLexTNode/List/Range and Item.match (go/ssa -> QF_BV): one inductive step from an arbitrary well-formed class set plus a from-empty run; unsat for every rune/range value inside the bound.", ref="7 C18", tech="symbolic execution of go/ssa into QF_BV, inductive step + BMC, decided by z3/cvc5"),
  "C08": dict(text="Bounded model checking of the generated Lexer.Scan (emitted by the current template on every run): one Scan from every reachable (offset,line,column) on ABSTRACT tables (transition function uninterpreted, action rows arbitrary under the generator's row contract: all lexers with <= 4 states at once) and on the real tables of corpus lexers; positions, literal, tiling and the re-established position invariant are asserted for every source up to the byte bound.", ref="7 C08", tech="symbolic execution of the generated Go (go/ssa -> QF_BV) over uninterpreted lexer tables, inductive step, decided by z3/cvc5"),
  "C19": dict(text="Bounded model checking of the real md.loadMd on every rune slice up to the length bound against a position-wise specification of fenced-code extraction.", ref="7 C19", tech="symbolic execution of go/ssa into QF_BV, BMC over all inputs up to a length, decided by z3/cvc5"),
